@@ -124,6 +124,12 @@ func checkAndUpgradeValidatorsToYouV5(ctx *context) {
 
 	num := ctx.header.Number.Uint64()
 	parent := ctx.chain.GetHeader(ctx.header.ParentHash, num-1)
+	if parent == nil {
+		// side-chain verification executes blocks whose parents are not stored yet
+		// (verifyAllSideChainBlocks writes them only after all of them verified).
+		logging.Warn("checkAndUpgradeValidatorsToYouV5: parent header not stored", "height", num, "parent", ctx.header.ParentHash.String())
+		return
+	}
 	if parent.CurrVersion == params.YouV4 {
 		logging.Info("update current validators to YouV5", "height", num)
 		// only do once on the first YouV5 block.
